@@ -1,9 +1,10 @@
 """C19 - a limited user's throughput never exceeds the configured rates."""
 import os, json, threading
 import vlib
+from props import c19_backlog as bl
 
 PROP_FILES = ['Properties/C19']
-EXTRA_OBLIGATION_FILES = ['Proofs/AtomPanel']
+EXTRA_OBLIGATION_FILES = ['Proofs/AtomPanel', 'Proofs/AtomValve']
 TRUSTED = [
     'atomic steps of the hand-written model as GENERATED obligations (Proofs/AtomPanel.v, re-proved on every run about coq/Gen/Atomicity.v; in a private re-generated copy under VERIF_EXTRA_OVERLAY): tools/lockscan (go/ast, syntactic types) is trusted to list, per function of internal/{server,multiplex,common,client}, every field access / call / sync/atomic operation with the critical sections (Lock..Unlock / RLock..RUnlock / deferred unlock, mutex identity by name) it lies in, every sync.Pool.Put with the later mentions of the object, and every variable a go statement shares with its spawner (anything it cannot resolve is in atomicity_errors, which must be empty); it does not follow calls (a region is what one function writes between Lock and Unlock), does no alias analysis, treats callbacks as running with no lock held, and counts call sites, not executions (a loop around one call site is invisible); who removes entries (AtomReplay/AtomPanel/AtomMux): the scanner distinguishes element stores (w), delete/clear (del), assignment of the whole field (set), address-of (addr) and the map being handed on as a value (val); a delete on a local map is recorded under the name of that local',
     'Coq 8.16.1 kernel incl. vm_compute (no native_compute); theorems of Properties/C19.v: Closed under the global context',
@@ -14,6 +15,7 @@ TRUSTED = [
     'real timers oversleep: only the upper bound is a statement about the deployed system; C19_not_starved_partial is about ideal sleeps (model; checked under virtual time only)',
     'one valve per user: C19_shared_valve is about a four-line model of GetSession; the driver harness/server/c19_test.go asserts pointer identity of Session.Valve across sessions obtained from the real userPanel.GetUser / ActiveUser.GetSession (real local manager on a temporary bolt db) and that rx/tx capacities are UpRate/DownRate',
     'F5 (a session created in a terminated user record keeps the old record\'s valve) is outside this check: see C17',
+    'WHICH call of the bucket API the model stands for: LimitedValve.rxWait(n) / txWait(n) = Bucket.Wait(n) and only that - take with NO maximum wait (the library\'s infinityDuration) followed by a sleep of the returned duration; the tokens are taken whatever the wait (C19_never_released_early, C19_backlog_wait, C19_wait_unbounded: the wait has no upper limit in the model). The library\'s other entry points are NOT what the theorems are about: WaitMaxDuration / TakeMaxDuration take nothing and return at once when the wait would exceed the maximum (modelled as take_max (Some m), compared with the library on every run, and refuted as a valve: C19_refuted_capped_wait), TakeAvailable never waits, Take does not sleep. That the source makes exactly this call is the GENERATED obligation Proofs/AtomValve.v (rxWait/txWait each make one call, a method named Wait, on their bucket field; no other function of the scanned packages calls anything of the ratelimit package or of the two bucket fields except NewBucketWithRate in MakeValve; switchboard.send calls txWait once ahead of every Conn.Write, deplex calls rxWait once between Conn.Read and recvDataFromRemote) - by call-site NAME as tools/lockscan prints it, so a wrapper function around the bucket or a bucket reached through another field would need the lemma updated; what the call DOES is the correspondence\'s business: long-backlog families (tools/props/c19_backlog.py) drive the real valve, directly and under real sessions in both directions, to 1 s .. 1 h of queued demand',
     'overlapped admissions (harness/server/c19_overlap_test.go): a test UserManager parks AuthenticateUser calls of first connections of one user; lock-out is read off runtime.Stack goroutine states inside the synctest bubble (polling with runtime.Gosched, the virtual clock does not move during admission); only the server->client direction (DownRate) is time-stamped there (the rx tap needs multiplex internals)',
 ]
 ASSUMPTIONS = [
@@ -106,6 +108,7 @@ def gen_cases(ctx):
             scen(dirn, rate, 3, 2, [(0, small, 10, 0, 0), (1, small, 10, 0, 0), (2, small, 10, 0, 0), (1, 3 * small, 4, S // 5, 2 * S)], 'three-sessions-two-conns')
             scen(dirn, rate, 1, 2, [(0, small, 10, 0, 0), (0, 2 * small, 6, S // 20, 0), (0, 20, 25, 0, S)], 'one-session-three-streams')
             scen(dirn, rate, 1, 1, [(0, MAXUNIT, 3, 0, 0)], 'max-frames')
+    bl.session_scens(scen, rng, q)          # long-backlog families (1 s .. 1 h of queued demand on one valve)
     if not q:
         for k in range(300):
             rate = rng.choice([1000, 5000, 50000, 10**6, rng.randrange(500, 200000)])
@@ -115,6 +118,8 @@ def gen_cases(ctx):
             # keep virtual durations and event counts moderate
             writers = [(s, min(sz, max(30, rate * 4)), c, g, d) for (s, sz, c, g, d) in writers]
             scen(rng.choice(['tx', 'rx']), rate, nsess, rng.randrange(1, 3), writers, 'random')
+    for cid, line, m in bl.bucket_lines(rng, q) + bl.valve_lines(rng, q):
+        lines.append(line); meta[cid] = m
     return lines, meta
 
 
@@ -164,6 +169,16 @@ def oracle_S(m, d, model_valve):
                 ex = b - literal_bound(rate, q, dt)
                 if worst_known is None or ex > worst_known[0]:
                     worst_known = (ex, i, j, b, dt, literal_bound(rate, q, dt))
+    fs = bl.from_start_excess(q, F, cap, ts, pre)
+    if fs and (worst_new is None or fs[0] >= worst_new[0]):
+        # C19_bound_from_start: for intervals that begin when the valve is made the literal bound is a theorem
+        # (no allowance for the largest message), so this is never F14
+        ex, j, b, lim = fs
+        worst_new = None
+        res.append(('rate-exceeded:%s' % m['dir'],
+                    '%s direction, rate %d B/s, %d session(s): %d bytes were released in the first %d ns after the valve was made; the bucket held %d bytes and had been refilled with %d by then: proved bound %d (C19_bound_from_start; largest message %d)'
+                    % (m['dir'], rate, m['nsess'], b, ts[j], cap, lim - cap, lim, cmax),
+                    dict(first_event=ev[0], last_event=ev[j], bytes=b, interval_ns=ts[j], interval='from the creation of the valve', bound=lim, largest_message=cmax)))
     if worst_new:
         ex, i, j, b, dt, lim = worst_new
         res.append(('rate-exceeded:%s' % m['dir'],
@@ -457,7 +472,7 @@ def correspondence(ctx, verdict, pr):
     sh = {}
     th = threading.Thread(target=lambda: sh.update(r=run_shared(ctx)))
     th.start()
-    ovcases = gen_overlap(ctx.rng, ctx.quick())
+    ovcases = gen_overlap(ctx.rng, ctx.quick()) + bl.overlap_cases()
     rc, log, impl, done = run_go(ctx, lines, 'cases')
     if rc != 0 or not done:
         res['broken'].append(('Go driver TestVerifC19 failed to build or run (rc=%d, finished=%s)' % (rc, done), log[-3000:]))
@@ -466,7 +481,7 @@ def correspondence(ctx, verdict, pr):
     if mrc != 0:
         res['broken'].append(('extracted model c19 failed', (merr or '')[-2000:]))
     mism = []
-    counts = dict(R=0, V=0, B=0, S=0)
+    counts = dict(R=0, V=0, B=0, S=0, L=0)
     for l in lines:
         f = l.split()
         cid = f[1]
@@ -490,6 +505,38 @@ def correspondence(ctx, verdict, pr):
     glines, gexp = [], {}
     orc_new, known, nevents, nint = 0, 0, 0, 0
     tags = []
+    qlines, qexp = [], {}
+    lstats = dict(valve_call_scenarios=0, calls=0, compared_with_model=0, longest_wait_s=0, by_threshold_crossed={})
+    for l in lines:                      # the real valve called directly (long-backlog families)
+        cid = l.split()[1]
+        m = meta[cid]
+        if m['kind'] != 'L' or cid not in impl:
+            continue
+        orc, vm, d, params = eval_L(ctx, cid, m, impl[cid], vcache)
+        lstats['valve_call_scenarios'] += 1; lstats['calls'] += len(d['calls'])
+        nevents += len(d['events']); nint += len(d['events']) * (len(d['events']) + 1) // 2
+        if d['calls']:
+            lstats['longest_wait_s'] = max(lstats['longest_wait_s'], max(c[1] - c[0] for c in d['calls']) // S)
+        bl.tally(lstats, 'valve', m['dir'], m['tag'], m['demand_s'], [o for o in orc if not o[0].startswith('burst-exceeds')])
+        if vm:
+            mism.append((l, vm, ''))
+        elif params:
+            ql, exp = bl.model_line_L(cid, d, params)
+            qlines.append(ql); qexp[cid] = (l, bl.parse_q_out(exp))
+        for sig, what, det in orc:
+            small = l
+            if not sig.startswith('burst-exceeds'):
+                if orc_new >= 2:
+                    orc_new += 1
+                    continue
+                small = shrink_L(ctx, l, sig)
+            r = verdict.oracle_failure(sig, 'C19 oracle (LimitedValve.%sWait called directly by %d goroutine(s)): %s' % (m['dir'], len(m['callers']), what),
+                                       dict(line=small, original_line=l if small != l else None, detail=det, implementation=impl[cid][:2000],
+                                            how='python3 tools/check.py C19 --replay <this file>'))
+            if r == 'known':
+                known += 1
+            else:
+                orc_new += 1
     for l in lines:
         f = l.split()
         cid = f[1]
@@ -507,6 +554,13 @@ def correspondence(ctx, verdict, pr):
         elif gl:
             glines.append(gl)
             gexp[cid] = ' '.join('%d:%d' % (e[0] - int(d['t0']), e[1]) for e in d['events'])
+        ql = bl.model_line_Q(cid, m, d, params) if not vm else None
+        if ql == 'BAD':
+            mism.append((l, 'frame sizes on the wire are not payload + %d + padding (0..%d)' % (bl.OVH, bl.PADMAX), ''))
+        elif ql:
+            qlines.append(ql[0]); qexp[cid] = (l, ql[1])
+        bl.tally(lstats, 'sessions', m['dir'], m['tag'], sum(w[1] * w[2] for w in m['writers']) / float(m['rate']),
+                 [o for o in orc if not o[0].startswith('burst-exceeds')])
         st = starvation(m, d, params)
         if st:
             orc.append(('starved', st, {}))
@@ -528,6 +582,13 @@ def correspondence(ctx, verdict, pr):
         for cid, exp in gexp.items():
             if gm.get(cid) != exp:
                 mism.append((meta[cid]['line'], 'release times ' + str(exp)[:600], 'model ' + str(gm.get(cid))[:600]))
+    if qlines:
+        qrc, qerr, qm = run_model_lines(ctx, qlines, 'conc')
+        for cid, (l, exp) in qexp.items():
+            got = bl.parse_q_out(qm.get(cid))
+            if got != exp:
+                mism.append((l, 'release times (ns since the valve was made : bytes) ' + str(exp)[:600], 'model ' + str(got)[:600]))
+        lstats['compared_with_model'] = len(qexp)
     th.join()
     ov_new, ov_stats = check_overlap(ctx, verdict, ovcases, res)
     orc_new += ov_new
@@ -550,8 +611,66 @@ def correspondence(ctx, verdict, pr):
         input_distribution=dict(kinds=counts, scenarios=vlib.summarize_dist([t.rsplit('/', 1)[0] for t in tags])),
         scenario_events=nevents, intervals_checked=nint, deterministic_scenarios_compared_with_model=len(gexp),
         shared_valve_driver=stxt.splitlines()[:12], exhaustive=False,
+        long_backlog=dict(lstats, thresholds_s=bl.THRESHOLDS, what='queued demand on ONE valve of 1 s .. 1 h of the configured rate: message/rate ratios, N concurrently blocked senders (streams, connections, sessions), small messages behind big ones; B: library bucket with injected clock incl. Wait/WaitMaxDuration; L: the real valve called directly; S: real sessions, both directions; O: sessions admitted through the userPanel. by_threshold_crossed counts scenarios per driver and direction by the largest threshold (s) their total demand reaches; families counts them by family; scenarios with pairwise distinct request instants are compared with the model to the nanosecond'),
         overlapped_admissions=dict(ov_stats, what='first connections of one limited user held inside Manager.AuthenticateUser (UserManager seam) in every release order for 2 and 3 connections + seeded schedules; then all sessions backlogged under virtual time; oracle: one valve / one record, every interval of the merged event stream within the bound for the user as a whole'))
     return res
+
+
+def eval_L(ctx, cid, m, out, vcache):
+    """the valve called directly: -> (oracle results, mismatch text or None, parsed, valve parameters of the direction)"""
+    d = bl.parse_L(out)
+    mv = valve_of(None, m['rx'], m['tx'], vcache, ctx)
+    mism = None
+    impl_rx = tuple(int(x) for x in d['rx'].split(','))
+    impl_tx = tuple(int(x) for x in d['tx'].split(','))
+    if mv is None or (impl_rx, impl_tx) != mv:
+        return [], 'MakeValve(%d,%d): implementation rx=%s tx=%s, model %s' % (m['rx'], m['tx'], impl_rx, impl_tx, mv), d, None
+    params = mv[1] if m['dir'] == 'tx' else mv[0]
+    want = sum(c[2] for c in m['callers'])
+    if len(d['calls']) != want:
+        mism = '%d of %d calls of %sWait returned' % (len(d['calls']), want, m['dir'])
+    return oracle_S(m, d, params), mism, d, params
+
+
+def meta_of_L(line):
+    f = line.split()
+    dirn, rx, tx = f[2], int(f[3]), int(f[4])
+    callers = [tuple(int(x) for x in c.split(':')[1:]) for c in f[5:]]
+    rate = tx if dirn == 'tx' else rx
+    return dict(kind='L', dir=dirn, rate=rate, rx=rx, tx=tx, callers=callers, nsess=len(callers), tag='replay',
+                demand_s=sum(c[1] * c[2] for c in callers) / float(rate), line=line)
+
+
+def fails_L(ctx, line, sig):
+    rc, log, impl, done = run_go(ctx, [line], 'shrink')
+    cid = line.split()[1]
+    if cid not in impl:
+        return False
+    orc, vm, d, params = eval_L(ctx, cid, meta_of_L(line), impl[cid], {})
+    return any(s.split(':')[0] == sig.split(':')[0] for s, _, _ in orc)
+
+
+def shrink_L(ctx, line, sig, budget=6):
+    """fewer callers, then fewer calls per caller, while the same kind of failure remains"""
+    f = line.split()
+    head, cs = f[:5], f[5:]
+    n = 0
+    while len(cs) > 1 and n < budget:          # halves first (451 callers), then single callers
+        half = cs[:(len(cs) + 1) // 2]
+        n += 1
+        if fails_L(ctx, ' '.join(head + half), sig):
+            cs = half
+        else:
+            break
+    i = 0
+    while i < len(cs) and len(cs) > 1 and n < budget:
+        cand = cs[:i] + cs[i + 1:]
+        n += 1
+        if fails_L(ctx, ' '.join(head + cand), sig):
+            cs = cand
+        else:
+            i += 1
+    return ' '.join(head + cs)
 
 
 def shrink(ctx, line, m, sig, budget=5):
@@ -617,6 +736,17 @@ def replay(ctx, verdict):
     print('implementation:', impl.get(cid, '')[:3000])
     if cid not in impl:
         print(log[-2000:]); return 1
+    if line.startswith('L '):
+        print('   (LimitedValve.%sWait called directly; C:<delay ns>:<bytes>:<calls>:<pause ns> per goroutine; output <call>:<return>:<bytes>:<goroutine>)' % line.split()[2])
+        orc, vm, d, params = eval_L(ctx, cid, meta_of_L(line), impl[cid], {})
+        if params:
+            ql, exp = bl.model_line_L(cid, d, params)
+            qrc, qerr, qm = run_model_lines(ctx, [ql], 'replay')
+            print('model (Wait = take the tokens, sleep until they are there), release times since the valve was made:', qm.get(cid))
+            print('implementation, same order:                                                                      ', exp)
+        for sig, what, det in orc:
+            print('oracle:', sig, what)
+        return 1 if vm or [o for o in orc if not o[0].startswith('burst-exceeds')] else 0
     orc, vm, gl, d, params = eval_S(ctx, cid, meta_of_line(line), impl[cid], {})
     print('valve parameters expected (model):', params, ' mismatch:', vm)
     for sig, what, det in orc:
